@@ -16,6 +16,8 @@ func main() {
 		os.Exit(cmdFacts(os.Args[2:]))
 	case "worker":
 		os.Exit(cmdWorker(os.Args[2:]))
+	case "conc":
+		os.Exit(cmdConc(os.Args[2:]))
 	case "run":
 		os.Exit(cmdRun(os.Args[2:]))
 	case "try":
